@@ -53,6 +53,13 @@ theorem checkedMul2_spec (d : Dur) (h : d.wf) :
         omega
       · simp only [Dur.wf, NANOS, U64, DMAXNS, Dur.toNs, reduceCtorEq, false_iff] at *; omega
 
+/-- The `checked_add` of the carry inside `checked_mul(2)` can never overflow: twice the seconds is
+even and below 2^64, the carry is at most one (the model arm `mul-add-overflow` is unreachable). -/
+theorem checkedMul2_add_never_overflows (d : Dur) (h : d.wf) (h1 : d.secs * 2 < U64) :
+    d.secs * 2 + d.nanos * 2 / NANOS < U64 := by
+  simp only [Dur.wf, NANOS, U64] at *
+  omega
+
 /-- `saturating_mul(2)` = min(MAX, 2·d) -/
 theorem satMul2_spec (d : Dur) (h : d.wf) : d.satMul2.wf ∧ d.satMul2.toNs = min DMAXNS (2 * d.toNs) := by
   have ⟨h1, h2⟩ := checkedMul2_spec d h
